@@ -9,7 +9,7 @@ from ..selftest import Mutant
 
 ID = "C36"
 TECHNIQUE = "writer/reader literal-table extraction and comparison (K6) over refs.py, mapping.py, urls.py (ast) and crates/git/src/lib.rs (Rust-lite)"
-FLOOR = 17
+FLOOR = 13
 RF = "breezy/git/refs.py"
 MP = "breezy/git/mapping.py"
 UR = "breezy/git/urls.py"
@@ -18,9 +18,11 @@ EXPLANATION = """
 R1 (K6) refs.py: the prefix constant prepended by branch_name_to_ref / tag_name_to_ref is the same name that
    ref_to_branch_name / ref_to_tag_name test with startswith() and slice with len(); "" <-> b"HEAD" is mapped both
    ways; a ref outside the prefix raises rather than being mangled.
-R2 (K6) mapping.py: escape_file_id's replace() pairs, in order, are inverted by unescape_file_id's dispatch chain
-   (same escape character, same code letters, same originals), the escape character itself is escaped first, and an
-   unknown code raises.
+R2 (K8) mapping.py: escape_file_id and unescape_file_id are evaluated abstractly (no execution of repo code: the
+   function ASTs are interpreted) on every string of length <= 3 (thorough: <= 4) over {_, space, FF, s, c, a}:
+   unescape(escape(x)) == x and escape is injective.  Only when either function uses a construct the evaluator does
+   not model do the older syntactic rules decide instead (replace() pairs inverted by the dispatch chain, escape
+   character escaped first, unknown code raises).
 R3 (K6/K10) URL segment-parameter keys written by urls.py:git_url_to_bzr_url equal the keys read by
    crates/git/src/lib.rs:bzr_url_to_git_url, and the (url, branch, ref) result order matches what
    git/branch.py:GitBranch.set_parent unpacks.
@@ -82,31 +84,63 @@ def run(ctx):
 
     # ---- R2 -----------------------------------------------------------------
     fe, fu = repo.func(MP, "escape_file_id"), repo.func(MP, "unescape_file_id")
-    pairs = []
-    for n in walk_own(fe):
-        if isinstance(n, ast.Call) and call_attr(n) == "replace" and len(n.args) == 2:
-            pairs.append((n.lineno, const_value(n.args[0]), const_value(n.args[1])))
-    pairs = [(a, b) for _, a, b in sorted(pairs)]
     where = f"{MP}:escape_file_id/unescape_file_id"
-    ctx.check("R2-escape-shape", where, len(pairs) >= 3 and all(isinstance(a, bytes) and isinstance(b, bytes) and len(a) == 1 and len(b) == 2 for a, b in pairs), f"escape pairs {pairs}")
-    esc = {b[:1] for a, b in pairs}
-    ctx.check("R2-escape-char-first", where, len(esc) == 1 and pairs and pairs[0][0] in esc and pairs[0][1] == pairs[0][0] * 2, "one escape character, and it is itself escaped first (so later replacements are not re-escaped)", construct=str(pairs[:1]), message="the escape character is not escaped first: escaping is no longer injective")
-    # reader: chain of `file_id[i+1:i+2] == X` -> ret.append(Y[0])
-    rd = {}
-    for n in walk_own(fu):
-        if isinstance(n, ast.If) and isinstance(n.test, ast.Compare) and isinstance(n.test.ops[0], ast.Eq) and isinstance(n.test.comparators[0], ast.Constant) and isinstance(n.test.comparators[0].value, bytes):
-            code = n.test.comparators[0].value
-            for b in n.body:
-                for c in calls_in(b):
-                    if call_attr(c) == "append" and c.args:
-                        lits = [x.value for x in ast.walk(c.args[0]) if isinstance(x, ast.Constant) and isinstance(x.value, bytes)]
-                        if lits:
-                            rd[code] = lits[0]
-    want = {b[1:]: a for a, b in pairs}
-    ctx.check("R2-inverse-table", where, rd == want, f"unescape table {rd} inverts escape table", construct=f"escape {pairs} / unescape {rd}", message=f"unescape_file_id does not invert escape_file_id: escape {pairs}, unescape {rd}")
-    gate = [n for n in walk_own(fu) if isinstance(n, ast.Compare) and isinstance(n.ops[0], ast.NotEq) and isinstance(n.comparators[0], ast.Constant) and n.comparators[0].value in esc]
-    ctx.check("R2-inverse-table", where, bool(gate), "unescape dispatches on the same escape character")
-    ctx.check("R2-unknown-code-raises", where, any(isinstance(n, ast.Raise) for n in walk_own(fu)), "an unknown escape code raises")
+    # decided by abstract evaluation (K8 table): every string over the escape alphabet round-trips and escaping is
+    # injective. Independent of how either side is written; the syntactic table rules below are the fallback when the
+    # functions use constructs the evaluator does not model.
+    import itertools
+
+    from ..absint import Interp, Raised, Unsupported, module_regex_hook
+
+    it = Interp(name_hook=module_regex_hook(repo.module(MP).tree), loop_bound=256)
+    alpha = [b"_", b" ", b"\x0c", b"s", b"c", b"a"]
+    maxlen = 4 if ctx.tier == "thorough" else 3
+    rows = [b"".join(t) for k in range(maxlen + 1) for t in itertools.product(alpha, repeat=k)]
+    bad, table_ok = [], True
+    try:
+        images = {}
+        for x in rows:
+            e = it.call(fe, {fe.args.args[0].arg: x})
+            try:
+                back = it.call(fu, {fu.args.args[0].arg: e})
+            except Raised as r:
+                back = ("raises", r.name)
+            if back != x:
+                bad.append((x, e, back))
+            if e in images and images[e] != x:
+                bad.append((x, e, ("collides with", images[e])))
+            images[e] = x
+    except (Raised, Unsupported) as ex:
+        table_ok = False
+        ctx.info("R2-roundtrip-table", where, f"round-trip table not evaluable ({ex}); the syntactic table rules decide instead")
+    if table_ok:
+        ctx.fact(len(rows))
+        ctx.check("R2-roundtrip-table", where, not bad, f"unescape_file_id(escape_file_id(x)) == x and escape is injective for all {len(rows)} strings of length <= {maxlen} over {{_, space, FF, s, c, a}}", construct=str(bad[:2]), message=f"file ids do not survive escaping: {bad[:2]} — a file id containing the escape character, a space or a form feed comes back as a different id after a round trip through Git")
+    if not table_ok:
+        pairs = []
+        for n in walk_own(fe):
+            if isinstance(n, ast.Call) and call_attr(n) == "replace" and len(n.args) == 2:
+                pairs.append((n.lineno, const_value(n.args[0]), const_value(n.args[1])))
+        pairs = [(a, b) for _, a, b in sorted(pairs)]
+        ctx.check("R2-escape-shape", where, len(pairs) >= 3 and all(isinstance(a, bytes) and isinstance(b, bytes) and len(a) == 1 and len(b) == 2 for a, b in pairs), f"escape pairs {pairs}")
+        esc = {b[:1] for a, b in pairs}
+        ctx.check("R2-escape-char-first", where, len(esc) == 1 and pairs and pairs[0][0] in esc and pairs[0][1] == pairs[0][0] * 2, "one escape character, and it is itself escaped first (so later replacements are not re-escaped)", construct=str(pairs[:1]), message="the escape character is not escaped first: escaping is no longer injective")
+        # reader: chain of `file_id[i+1:i+2] == X` -> ret.append(Y[0])
+        rd = {}
+        for n in walk_own(fu):
+            if isinstance(n, ast.If) and isinstance(n.test, ast.Compare) and isinstance(n.test.ops[0], ast.Eq) and isinstance(n.test.comparators[0], ast.Constant) and isinstance(n.test.comparators[0].value, bytes):
+                code = n.test.comparators[0].value
+                for b in n.body:
+                    for c in calls_in(b):
+                        if call_attr(c) == "append" and c.args:
+                            lits = [x.value for x in ast.walk(c.args[0]) if isinstance(x, ast.Constant) and isinstance(x.value, bytes)]
+                            if lits:
+                                rd[code] = lits[0]
+        want = {b[1:]: a for a, b in pairs}
+        ctx.check("R2-inverse-table", where, rd == want, f"unescape table {rd} inverts escape table", construct=f"escape {pairs} / unescape {rd}", message=f"unescape_file_id does not invert escape_file_id: escape {pairs}, unescape {rd}")
+        gate = [n for n in walk_own(fu) if isinstance(n, ast.Compare) and isinstance(n.ops[0], ast.NotEq) and isinstance(n.comparators[0], ast.Constant) and n.comparators[0].value in esc]
+        ctx.check("R2-inverse-table", where, bool(gate), "unescape dispatches on the same escape character")
+        ctx.check("R2-unknown-code-raises", where, any(isinstance(n, ast.Raise) for n in walk_own(fu)), "an unknown escape code raises")
 
     # ---- R3 -----------------------------------------------------------------
     from ..astutil import bind_roles, canonicalise
@@ -171,39 +205,69 @@ def run(ctx):
     # ---- R4: the parent location is written to and read from the same git config entries -----------------------
     GB = "breezy/git/branch.py"
 
-    def cfg_accesses(fn, meth):
-        """{(normalised section, key)} of cs.<meth>(section, key, ...) calls; locals bound from the remote-name helpers
-        and `self.name.encode(...)` are replaced by role markers so that writer and reader can be compared."""
-        roles = {}
+    def cfg_accesses(fn, meth, bound=None, depth=0):
+        """{(normalised section, key)} of cs.<meth>(section, key, ...) calls in fn and, one level down, in the GitBranch
+        helpers it calls.  Locals bound from the remote-name helpers and `self.name.encode(...)` are replaced by role
+        markers so that writer and reader can be compared; a helper's parameters are bound to the caller's arguments
+        (or their defaults); a section held in a local is resolved through its (single) assignment."""
+        bound = dict(bound or {})
+        local = {}
         for s_ in walk_own(fn):
-            if isinstance(s_, ast.Assign) and isinstance(s_.value, ast.Call) and call_attr(s_.value) in ("_get_origin", "_get_push_origin") and isinstance(s_.targets[0], ast.Name):
-                roles[s_.targets[0].id] = f"<remote:{call_attr(s_.value)}>"
+            if isinstance(s_, ast.Assign) and len(s_.targets) == 1 and isinstance(s_.targets[0], ast.Name):
+                nm = s_.targets[0].id
+                if isinstance(s_.value, ast.Call) and call_attr(s_.value) in ("_get_origin", "_get_push_origin"):
+                    bound[nm] = f"<remote:{call_attr(s_.value)}>"
+                else:
+                    local.setdefault(nm, []).append(s_.value)
+
+        def atom(e):
+            t = norm(e)
+            if isinstance(e, ast.Constant):
+                return e.value.decode() if isinstance(e.value, bytes) else str(e.value)
+            if isinstance(e, ast.Name) and e.id in bound:
+                return bound[e.id]
+            if t.startswith("self.name.encode("):
+                return "<branch-name>"
+            return t
+
+        def section(e):
+            if isinstance(e, ast.Name) and len(local.get(e.id, [])) == 1:
+                e = local[e.id][0]
+            if isinstance(e, ast.Tuple):
+                return tuple(atom(x) for x in e.elts)
+            return (norm(e),)
+
         out = set()
         for c in calls_in(fn):
-            if call_attr(c) == meth and len(c.args) >= 2 and isinstance(c.args[0], ast.Tuple) and isinstance(c.args[1], ast.Constant):
-                sec = []
-                for e in c.args[0].elts:
-                    t = norm(e)
-                    if isinstance(e, ast.Constant):
-                        sec.append(e.value.decode() if isinstance(e.value, bytes) else str(e.value))
-                    elif t in roles:
-                        sec.append(roles[t])
-                    elif t.startswith("self.name.encode("):
-                        sec.append("<branch-name>")
-                    else:
-                        sec.append(t)
+            if call_attr(c) == meth and len(c.args) >= 2 and isinstance(c.args[1], ast.Constant) and (call_recv(c) or "") in ("cs", "config", "self._config") or (call_attr(c) == meth and len(c.args) >= 2 and isinstance(c.args[1], ast.Constant) and isinstance(c.args[0], (ast.Tuple, ast.Name))):
                 k = c.args[1].value
-                out.add((tuple(sec), k.decode() if isinstance(k, bytes) else str(k)))
+                out.add((section(c.args[0]), k.decode() if isinstance(k, bytes) else str(k)))
+            elif depth == 0 and call_recv(c) in ("self", "cls", "GitBranch") and call_attr(c) not in ("_get_origin", "_get_push_origin"):
+                h = repo.resolve_method(GB, "GitBranch", call_attr(c))
+                if h is None:
+                    continue
+                hf = h[2]
+                params = [a.arg for a in hf.args.args if a.arg not in ("self", "cls")]
+                defaults = dict(zip([a.arg for a in hf.args.args][len(hf.args.args) - len(hf.args.defaults):], hf.args.defaults))
+                b2 = {}
+                for i_, pn in enumerate(params):
+                    if i_ < len(c.args):
+                        b2[pn] = atom(c.args[i_])
+                    elif pn in {k_.arg for k_ in c.keywords}:
+                        b2[pn] = atom([k_.value for k_ in c.keywords if k_.arg == pn][0])
+                    elif pn in defaults:
+                        b2[pn] = atom(defaults[pn])
+                out |= cfg_accesses(hf, meth, b2, depth + 1)
         return out
 
     wr = cfg_accesses(repo.func(GB, "GitBranch.set_parent"), "set")
     rd = cfg_accesses(repo.func(GB, "GitBranch._get_related_merge_branch"), "get")
-    ctx.require(len(wr) >= 3 and len(rd) >= 2, f"{GB}: config accesses of set_parent / _get_related_merge_branch not found ({sorted(wr)} / {sorted(rd)})")
+    ctx.require(len(wr) >= 2 and len(rd) >= 2, f"{GB}: config accesses of set_parent / _get_related_merge_branch not found ({sorted(wr)} / {sorted(rd)})")
     for sec, key in sorted(rd):
         ctx.check("parent-config-keys", f"{GB}:GitBranch._get_related_merge_branch[{' '.join(sec)}.{key}]", (sec, key) in wr, f"get_parent reads [{' '.join(sec)}] {key}, which set_parent writes", construct=f"read [{' '.join(sec)}] {key}; written {sorted(wr)}", message=f"get_parent reads the git config entry [{' '.join(sec)}] {key} but set_parent writes {sorted(' '.join(s_) + '.' + k for s_, k in wr)}: the parent location (or its branch/ref part) stored by set_parent is not what is read back")
     fpl = repo.func(GB, "GitBranch._get_parent_location")
     ctx.check("parent-config-keys", f"{GB}:GitBranch._get_parent_location", any(call_attr(c) == "_get_related_merge_branch" for c in calls_in(fpl)), "get_parent goes through _get_related_merge_branch")
-    ctx.sample({"escape_pairs": [(a.decode("latin1"), b.decode("latin1")) for a, b in pairs], "url_keys_written": sorted(wkeys), "url_keys_read": rkeys})
+    ctx.sample({"escape_rows": len(rows), "url_keys_written": sorted(wkeys), "url_keys_read": rkeys})
 
 
 MUTANTS = [
@@ -211,8 +275,8 @@ MUTANTS = [
     Mutant("set_parent writes under the push remote", "breezy/git/branch.py", "        cs = self.repository._git.get_config()\n        remote = self._get_origin(cs)", "        cs = self.repository._git.get_config()\n        remote = self._get_push_origin(cs)", expect="parent-config-keys"),
     Mutant("tag reader uses the branch prefix", RF, "    if ref.startswith(LOCAL_TAG_PREFIX):\n        return ref[len(LOCAL_TAG_PREFIX) :].decode(\"utf-8\")", "    if ref.startswith(LOCAL_TAG_PREFIX):\n        return ref[len(LOCAL_BRANCH_PREFIX) :].decode(\"utf-8\")", expect="R1-prefix-pair"),
     Mutant("HEAD no longer maps back to the empty name", RF, "    if ref == b\"HEAD\":\n        return \"\"\n", "", expect="R1-head"),
-    Mutant("the _c escape arm dropped", MP, "            elif file_id[i + 1 : i + 2] == b\"c\":\n                ret.append(b\"\\x0c\"[0])\n", "", expect="R2-inverse-table"),
-    Mutant("escape char no longer escaped first", MP, "    file_id = file_id.replace(b\"_\", b\"__\")\n    file_id = file_id.replace(b\" \", b\"_s\")\n", "    file_id = file_id.replace(b\" \", b\"_s\")\n    file_id = file_id.replace(b\"_\", b\"__\")\n", expect="R2-escape-char-first"),
+    Mutant("the _c escape arm dropped", MP, "            elif file_id[i + 1 : i + 2] == b\"c\":\n                ret.append(b\"\\x0c\"[0])\n", "", expect="R2-roundtrip-table"),
+    Mutant("escape char no longer escaped first", MP, "    file_id = file_id.replace(b\"_\", b\"__\")\n    file_id = file_id.replace(b\" \", b\"_s\")\n", "    file_id = file_id.replace(b\" \", b\"_s\")\n    file_id = file_id.replace(b\"_\", b\"__\")\n", expect="R2-roundtrip-table"),
     Mutant("writer key renamed on one side only", UR, "            params[\"ref\"] = urlutils.quote_from_bytes(ref, safe=\"\")", "            params[\"gitref\"] = urlutils.quote_from_bytes(ref, safe=\"\")", expect="url-keys"),
     Mutant("rust result order swapped", RS, "Ok((target_url.to_string(), branch, ref_))", "Ok((target_url.to_string(), ref_, branch))", expect="url-result-order"),
     Mutant("neutral: len(PREFIX) hoisted into a local", RF, "    if ref.startswith(LOCAL_TAG_PREFIX):\n        return ref[len(LOCAL_TAG_PREFIX) :].decode(\"utf-8\")", "    if ref.startswith(LOCAL_TAG_PREFIX):\n        return ref[len(LOCAL_TAG_PREFIX) : len(ref)].decode(\"utf-8\")", neutral=True),
